@@ -561,6 +561,17 @@ structure AppLoop where
   syncLog : Bool := false
   err : Bool := false        -- config decode failed: unexpectedErr
 
+/-- "new entry conflicts with our entry: delete it and all that follow it" (and revert the
+configuration if it was at or above that index); nothing to do for an index beyond the log. -/
+def resolveConflict (s : Node) (ne : Entry) (prevTerm : Nat) : Node :=
+  if ne.index ≤ s.lastLogIndex then
+    match s.entryTerm? ne.index with
+    | none => s.panic "bug.mustGetEntry"
+    | some _ =>
+      let s := s.removeGTE ne.index prevTerm
+      if ne.index ≤ s.configs.latest.index then s.revertConfig else s
+  else s
+
 def appendLoop (st : AppLoop) : List Entry → AppLoop
   | [] => st
   | ne :: rest =>
@@ -574,16 +585,7 @@ def appendLoop (st : AppLoop) : List Entry → AppLoop
       let present : Bool := ne.index ≤ s.lastLogIndex && s.entryTerm? ne.index == some ne.term
       if present then appendLoop st rest
       else
-        -- new entry conflicts with our entry: delete it and all that follow it
-        let s :=
-          if ne.index ≤ s.lastLogIndex then
-            match s.entryTerm? ne.index with
-            | none => s.panic "bug.mustGetEntry"
-            | some _ =>
-              let s := s.removeGTE ne.index prevTerm
-              if ne.index ≤ s.configs.latest.index then s.revertConfig else s
-          else s
-        let s := s.appendEntry ne
+        let s := (s.resolveConflict ne prevTerm).appendEntry ne
         let st := { st with s := s, syncLog := true }
         if ne.typ = etConfig then
           match ne.config? with
